@@ -11,12 +11,18 @@
   messages whose address does not start with '#': `oscFraming` (Proofs/RingOsc.lean) derives
   `Framing frameOsc IsOscMsg` from C01's `ringLength_encode`.  All theorems quantify over
   *every* operation history, every interleaving and every memcpy chunk size; none has a bound.
+
+  The lookahead clause under concurrency (section "lookahead reads under concurrency") uses the
+  cursors of the bounded FIFO computed from the reader's own log (`Proofs/RingLook.lean`:
+  `curOf`, `Conc.lookahead`, `Conc.cursor`); `conc_cursor_is_queue` shows that they are the
+  cursors `Q.step` maintains.
 -/
 import RtoscModel.Ring.Frame
 import RtoscModel.Proofs.RingSeq
 import RtoscModel.Proofs.RingConc
 import RtoscModel.Proofs.RingOsc
 import RtoscModel.Proofs.RingAccept
+import RtoscModel.Proofs.RingLook
 namespace Rtosc.Ring
 open Rtosc
 
@@ -209,6 +215,144 @@ theorem hasNext_exact (fr : Framing frame IsMsg) (maxMsg nmsgs chunk : Nat) (hN 
     show ¬(retOf s.rlog).length < (pubOf s.wlog).length ↔ (retOf s.rlog).length = (pubOf s.wlog).length
     omega
 
+/-! ## lookahead reads under concurrency (review A3)
+
+  `s.lookahead` (= `laOf s.rlog`) is the position of the lookahead cursor of the bounded FIFO,
+  computed from the results the reader has received so far with the cursor arithmetic of
+  `Q.step` (`curStep`: a lookahead read that returns a message advances it, every normal read
+  sets it to the number of consumed messages); `s.cursor l` is the published message a
+  `read(l)` looks at: `s.lookahead` for `read_lookahead`, `s.returned.length` for `read`;
+  `s.absQ` is the bounded FIFO holding the published messages with these two cursors. -/
+
+/-- the bounded FIFO a reachable state stands for: the published messages, of which
+    `returned.length` are consumed, lookahead cursor at `lookahead` -/
+def Conc.absQ (s : Conc) : Q := qAt (s.N - 1) s.maxMsg s.published (s.returned.length, s.lookahead)
+
+/-- **C06 / lookahead, under every interleaving: the cursors are the queue's cursors.**  In
+    every reachable state, a `read` / `read_lookahead` of the bounded FIFO `s.absQ` returns the
+    published message at `s.cursor l` (nothing iff the cursor is behind the last published
+    message) and leaves the FIFO with the cursors that `curStep` computes from that result —
+    so the log-defined cursors used by the theorems below are exactly the cursors of the
+    abstract queue; `hasNext` / `hasNextLookahead` of the FIFO answer `cursor < published`. -/
+theorem conc_cursor_is_queue (fr : Framing frame IsMsg) (maxMsg nmsgs chunk : Nat) (hN : 0 < maxMsg * nmsgs)
+    (wops : List WOp) (rops : List ROp) (hops : WOpsOk IsMsg wops) (s : Conc)
+    (h : Conc.Reach frame (Conc.init frame maxMsg nmsgs chunk wops rops) s) (l : Bool) :
+    Q.step s.absQ (ropOp l) =
+      (qAt (s.N - 1) s.maxMsg s.published
+         (curStep (s.returned.length, s.lookahead) (.read l ((s.published[s.cursor l]?).getD []))),
+       .msg s.published[s.cursor l]?) ∧
+    (Q.step s.absQ (if l = true then .hasNextLookahead else .hasNext)).2 =
+      .bool (decide (s.cursor l < s.published.length)) := by
+  have inv := conc_inv fr maxMsg nmsgs chunk hN wops rops hops s h
+  have li := reach_linv fr (init_inv maxMsg nmsgs chunk wops rops hN hops)
+    (init_linv frame maxMsg nmsgs chunk wops rops) h
+  exact ⟨queue_cursor _ _ _ (fun m hm => fr.ne m (inv.hP m hm).1) _ _ li.hlo li.hhi l,
+    queue_hasNext _ _ _ _ _ li.hlo l⟩
+
+/-- **C06 / lookahead FIFO, under every interleaving.**  In every reachable state the lookahead
+    cursor lies between the consumed and the published messages, and *every* completed read in
+    the reader's log that returned a message — `read_lookahead` as well as `read` — returned,
+    byte for byte, the published message its cursor pointed at when it was issued (the cursors
+    computed from the results that precede it in the log): lookahead reads replay the published
+    sequence from the last consuming read on, without skipping, duplicating or tearing. -/
+theorem conc_lookahead_fifo (fr : Framing frame IsMsg) (maxMsg nmsgs chunk : Nat) (hN : 0 < maxMsg * nmsgs)
+    (wops : List WOp) (rops : List ROp) (hops : WOpsOk IsMsg wops) (s : Conc)
+    (h : Conc.Reach frame (Conc.init frame maxMsg nmsgs chunk wops rops) s) :
+    s.returned.length ≤ s.lookahead ∧ s.lookahead ≤ s.published.length ∧
+    ∀ i l m, s.rlog[i]? = some (.read l m) → m ≠ [] →
+      s.published[curAt l (s.rlog.take i)]? = some m := by
+  have li := reach_linv fr (init_inv maxMsg nmsgs chunk wops rops hN hops)
+    (init_linv frame maxMsg nmsgs chunk wops rops) h
+  exact ⟨li.hlo, li.hhi, li.hlog⟩
+
+/-- **C06 / hasNext and hasNextLookahead.**  In every reachable state in which the reader is about
+    to execute `hasNext()` (`l = false`) or `hasNextLookahead()` (`l = true`), its single shared
+    access (the load of the write index — the linearisation point) yields `true` exactly when a
+    published message lies at its cursor. -/
+theorem hasNext_exact_cursor (fr : Framing frame IsMsg) (maxMsg nmsgs chunk : Nat) (hN : 0 < maxMsg * nmsgs)
+    (wops : List WOp) (rops : List ROp) (hops : WOpsOk IsMsg wops) (s : Conc)
+    (h : Conc.Reach frame (Conc.init frame maxMsg nmsgs chunk wops rops) s)
+    (l : Bool) (rest : List ROp) (hpc : s.rpc = .idle) (hop : s.rops = .hasNext l :: rest) :
+    ∃ s' b, s.step frame .reader = some (s', .loadW s.w) ∧ s'.rlog = s.rlog ++ [.hasNext l b] ∧
+      (b = true ↔ s.cursor l < s.published.length) := by
+  have inv := conc_inv fr maxMsg nmsgs chunk hN wops rops hops s h
+  have li := reach_linv fr (init_inv maxMsg nmsgs chunk wops rops hN hops)
+    (init_linv frame maxMsg nmsgs chunk wops rops) h
+  have hC : (retOf s.rlog).length ≤ (pubOf s.wlog).length := inv.hC
+  have hx : readSize s.w (if l = true then s.la else s.r) s.N ≠ 0 ↔ curAt l s.rlog < (pubOf s.wlog).length := by
+    cases l with
+    | false => exact inv_readSize_at fr inv (Nat.le_refl _) hC inv.hr
+    | true => exact inv_readSize_at fr inv li.hlo li.hhi li.hla
+  refine ⟨{ s with rops := rest, rlog := s.rlog ++ [.hasNext l (decide (readSize s.w (if l = true then s.la else s.r) s.N ≠ 0))] },
+    decide (readSize s.w (if l = true then s.la else s.r) s.N ≠ 0), ?_, rfl, ?_⟩
+  · simp only [Conc.step, Conc.rStep, hpc, hop]
+  · rw [decide_eq_true_iff]; exact hx
+
+/-- **C06 / hasNextLookahead.**  `hasNextLookahead()` answers `false` exactly when the lookahead
+    cursor has reached the end of the published messages (counterpart of `hasNext_exact`). -/
+theorem hasNextLookahead_exact (fr : Framing frame IsMsg) (maxMsg nmsgs chunk : Nat) (hN : 0 < maxMsg * nmsgs)
+    (wops : List WOp) (rops : List ROp) (hops : WOpsOk IsMsg wops) (s : Conc)
+    (h : Conc.Reach frame (Conc.init frame maxMsg nmsgs chunk wops rops) s)
+    (rest : List ROp) (hpc : s.rpc = .idle) (hop : s.rops = .hasNext true :: rest) :
+    ∃ s' b, s.step frame .reader = some (s', .loadW s.w) ∧ s'.rlog = s.rlog ++ [.hasNext true b] ∧
+      (b = false ↔ s.lookahead = s.published.length) := by
+  obtain ⟨s', b, h1, h2, h3⟩ := hasNext_exact_cursor fr maxMsg nmsgs chunk hN wops rops hops s h true rest hpc hop
+  have li := (conc_lookahead_fifo fr maxMsg nmsgs chunk hN wops rops hops s h).2.1
+  refine ⟨s', b, h1, h2, ?_⟩
+  have h3 : b = true ↔ s.lookahead < s.published.length := h3
+  cases b <;> simp at h3 ⊢ <;> omega
+
+/-- **C06 / what a read returns, at its linearisation point.**  In every reachable state in which
+    the reader is about to execute `read()` (`l = false`) or `read_lookahead()` (`l = true`), its
+    first shared access is the load of the write index; whatever the two threads do from there
+    (any interleaving, any number of steps), the reader's log is unchanged until the operation
+    completes, and the entry it then appends is the message that was published *at that load*
+    at the operation's cursor — nothing (`[]`) exactly when the cursor had reached the end of
+    the published messages at that moment.  By `conc_cursor_is_queue` this is what
+    `read` / `read_lookahead` of the bounded FIFO with lookahead cursor return in that state. -/
+theorem conc_read_exact (fr : Framing frame IsMsg) (maxMsg nmsgs chunk : Nat) (hN : 0 < maxMsg * nmsgs)
+    (wops : List WOp) (rops : List ROp) (hops : WOpsOk IsMsg wops) (s : Conc)
+    (h : Conc.Reach frame (Conc.init frame maxMsg nmsgs chunk wops rops) s)
+    (l : Bool) (rest : List ROp) (hpc : s.rpc = .idle) (hop : s.rops = .read l :: rest) :
+    ∃ s1, s.step frame .reader = some (s1, .loadW s.w) ∧
+      ∀ s', Conc.Reach frame s1 s' →
+        s'.rlog = s.rlog ∨
+        ∃ more, s'.rlog = s.rlog ++ .read l ((s.published[s.cursor l]?).getD []) :: more := by
+  have inv := conc_inv fr maxMsg nmsgs chunk hN wops rops hops s h
+  have li := reach_linv fr (init_inv maxMsg nmsgs chunk wops rops hN hops)
+    (init_linv frame maxMsg nmsgs chunk wops rops) h
+  have hstep : s.step frame .reader = some ({ s with rops := rest, rpc := .framing l s.w }, .loadW s.w) := by
+    simp only [Conc.step, Conc.rStep, hpc, hop]
+  refine ⟨_, hstep, ?_⟩
+  intro s' hr
+  obtain ⟨hX, hw0, p1⟩ := pend_start inv li hpc hop hstep
+  have inv1 := step_inv fr .reader inv hstep
+  have li1 := step_linv fr .reader inv li hstep
+  obtain ⟨-, -, pc⟩ := reach_pend fr hX hw0 inv1 li1 p1 hr
+  rcases pc with ⟨plog, -⟩ | ⟨plog, -⟩ | ⟨more, plog⟩
+  · exact Or.inl plog
+  · exact Or.inl plog
+  · exact Or.inr ⟨more, plog⟩
+
+/-- **C06 / nothing lost, with the lookahead cursor.**  Whenever both threads are between
+    operations, the ThreadLink is a sequential ThreadLink that *is* the bounded FIFO `s.absQ`:
+    any further (sequential) history of writes, reads, lookahead reads and hasNext queries
+    returns what that FIFO returns (generalises `conc_lossless` from `k` reads to any history
+    and to the lookahead cursor). -/
+theorem conc_quiescent_queue (fr : Framing frame IsMsg) (maxMsg nmsgs chunk : Nat) (hN : 0 < maxMsg * nmsgs)
+    (wops : List WOp) (rops : List ROp) (hops : WOpsOk IsMsg wops) (s : Conc)
+    (h : Conc.Reach frame (Conc.init frame maxMsg nmsgs chunk wops rops) s)
+    (hw : s.wpc = .idle) (_hr : s.rpc = .idle) (ops : List Op) (hok : OpsOk IsMsg ops) :
+    (Seq.run frame s.toSeq ops).2 = (Q.run s.absQ ops).2 := by
+  have inv := conc_inv fr maxMsg nmsgs chunk hN wops rops hops s h
+  have li := reach_linv fr (init_inv maxMsg nmsgs chunk wops rops hN hops)
+    (init_linv frame maxMsg nmsgs chunk wops rops) h
+  obtain ⟨P2, C2, L2, -, h2⟩ := run_refines fr ops _ _ _ _ (inv.toSeq_at li hw) hok
+  have e2 := congrArg Prod.snd h2
+  simp only at e2
+  rw [← e2]
+  rfl
+
 /-! ## concurrent acceptance (which writes are accepted) -/
 
 /-- **C06 / acceptance under concurrency.**  In every reachable state in which the writer is
@@ -312,6 +456,61 @@ theorem conc_accept_exact_osc (maxMsg nmsgs chunk : Nat) (hN : 0 < maxMsg * nmsg
        else s'.wpc.inflight = [] ∧ s'.published = s.published) ∧
       s'.buf = s.buf ∧ s'.w = s.w :=
   conc_accept_exact oscFraming maxMsg nmsgs chunk hN wops rops hops s h op rest hpc hop
+
+/-- **C06 / lookahead FIFO under every interleaving, for OSC messages and the real framing function.** -/
+theorem conc_lookahead_fifo_osc (maxMsg nmsgs chunk : Nat) (hN : 0 < maxMsg * nmsgs)
+    (wops : List WOp) (rops : List ROp) (hops : WOpsOk IsOscMsg wops) (s : Conc)
+    (h : Conc.Reach frameOsc (Conc.init frameOsc maxMsg nmsgs chunk wops rops) s) :
+    s.returned.length ≤ s.lookahead ∧ s.lookahead ≤ s.published.length ∧
+    ∀ i l m, s.rlog[i]? = some (.read l m) → m ≠ [] →
+      s.published[curAt l (s.rlog.take i)]? = some m :=
+  conc_lookahead_fifo oscFraming maxMsg nmsgs chunk hN wops rops hops s h
+
+theorem conc_cursor_is_queue_osc (maxMsg nmsgs chunk : Nat) (hN : 0 < maxMsg * nmsgs)
+    (wops : List WOp) (rops : List ROp) (hops : WOpsOk IsOscMsg wops) (s : Conc)
+    (h : Conc.Reach frameOsc (Conc.init frameOsc maxMsg nmsgs chunk wops rops) s) (l : Bool) :
+    Q.step s.absQ (ropOp l) =
+      (qAt (s.N - 1) s.maxMsg s.published
+         (curStep (s.returned.length, s.lookahead) (.read l ((s.published[s.cursor l]?).getD []))),
+       .msg s.published[s.cursor l]?) ∧
+    (Q.step s.absQ (if l = true then .hasNextLookahead else .hasNext)).2 =
+      .bool (decide (s.cursor l < s.published.length)) :=
+  conc_cursor_is_queue oscFraming maxMsg nmsgs chunk hN wops rops hops s h l
+
+theorem hasNext_exact_cursor_osc (maxMsg nmsgs chunk : Nat) (hN : 0 < maxMsg * nmsgs)
+    (wops : List WOp) (rops : List ROp) (hops : WOpsOk IsOscMsg wops) (s : Conc)
+    (h : Conc.Reach frameOsc (Conc.init frameOsc maxMsg nmsgs chunk wops rops) s)
+    (l : Bool) (rest : List ROp) (hpc : s.rpc = .idle) (hop : s.rops = .hasNext l :: rest) :
+    ∃ s' b, s.step frameOsc .reader = some (s', .loadW s.w) ∧ s'.rlog = s.rlog ++ [.hasNext l b] ∧
+      (b = true ↔ s.cursor l < s.published.length) :=
+  hasNext_exact_cursor oscFraming maxMsg nmsgs chunk hN wops rops hops s h l rest hpc hop
+
+theorem hasNextLookahead_exact_osc (maxMsg nmsgs chunk : Nat) (hN : 0 < maxMsg * nmsgs)
+    (wops : List WOp) (rops : List ROp) (hops : WOpsOk IsOscMsg wops) (s : Conc)
+    (h : Conc.Reach frameOsc (Conc.init frameOsc maxMsg nmsgs chunk wops rops) s)
+    (rest : List ROp) (hpc : s.rpc = .idle) (hop : s.rops = .hasNext true :: rest) :
+    ∃ s' b, s.step frameOsc .reader = some (s', .loadW s.w) ∧ s'.rlog = s.rlog ++ [.hasNext true b] ∧
+      (b = false ↔ s.lookahead = s.published.length) :=
+  hasNextLookahead_exact oscFraming maxMsg nmsgs chunk hN wops rops hops s h rest hpc hop
+
+/-- **C06 / what `read` and `read_lookahead` return at their linearisation point, for OSC
+    messages and the real framing function.** -/
+theorem conc_read_exact_osc (maxMsg nmsgs chunk : Nat) (hN : 0 < maxMsg * nmsgs)
+    (wops : List WOp) (rops : List ROp) (hops : WOpsOk IsOscMsg wops) (s : Conc)
+    (h : Conc.Reach frameOsc (Conc.init frameOsc maxMsg nmsgs chunk wops rops) s)
+    (l : Bool) (rest : List ROp) (hpc : s.rpc = .idle) (hop : s.rops = .read l :: rest) :
+    ∃ s1, s.step frameOsc .reader = some (s1, .loadW s.w) ∧
+      ∀ s', Conc.Reach frameOsc s1 s' →
+        s'.rlog = s.rlog ∨
+        ∃ more, s'.rlog = s.rlog ++ .read l ((s.published[s.cursor l]?).getD []) :: more :=
+  conc_read_exact oscFraming maxMsg nmsgs chunk hN wops rops hops s h l rest hpc hop
+
+theorem conc_quiescent_queue_osc (maxMsg nmsgs chunk : Nat) (hN : 0 < maxMsg * nmsgs)
+    (wops : List WOp) (rops : List ROp) (hops : WOpsOk IsOscMsg wops) (s : Conc)
+    (h : Conc.Reach frameOsc (Conc.init frameOsc maxMsg nmsgs chunk wops rops) s)
+    (hw : s.wpc = .idle) (hr : s.rpc = .idle) (ops : List Op) (hok : OpsOk IsOscMsg ops) :
+    (Seq.run frameOsc s.toSeq ops).2 = (Q.run s.absQ ops).2 :=
+  conc_quiescent_queue oscFraming maxMsg nmsgs chunk hN wops rops hops s h hw hr ops hok
 
 /-! ## known finding C06-K5: bundles are outside `IsMsg` -/
 
@@ -423,6 +622,48 @@ example :
       (Conc.init toyFrame 4 2 1 [.write [3, 1, 2], .rawWrite [2, 9]] [.read false, .hasNext false, .read false])).1
     s.returned = [[3, 1, 2], [2, 9]] ∧ s.published = [[3, 1, 2], [2, 9]] := by
   decide
+
+/-! ### lookahead reads under concurrency -/
+
+open Tid in
+/-- a schedule (byte-wise memcpy) in which the second `read_lookahead` loads the write index
+    before the second message is published and the third one after: the lookahead reads return
+    the first message, nothing, the second message; nothing is consumed; the cursor is at 2 -/
+def lookSched : List Tid :=
+  List.replicate 5 writer ++ List.replicate 6 reader ++ List.replicate 6 writer ++ List.replicate 40 reader
+
+def lookState : Conc :=
+  (Conc.run toyFrame lookSched
+    (Conc.init toyFrame 4 2 1 [.write [3, 1, 2], .rawWrite [2, 9]]
+      [.read true, .read true, .read true, .hasNext true, .read false, .read true])).1
+
+/-- that state is reachable (so every theorem above applies to it) … -/
+example : Conc.Reach toyFrame (Conc.init toyFrame 4 2 1 [.write [3, 1, 2], .rawWrite [2, 9]]
+    [.read true, .read true, .read true, .hasNext true, .read false, .read true]) lookState :=
+  run_reach _ _ Conc.Reach.refl
+
+/-- … and the conclusions say something about it: a lookahead read that finds nothing, two
+    that return messages without consuming, `hasNextLookahead` false at the end of the
+    published messages, a `read` that resynchronises the cursor, a lookahead read that
+    replays the second message -/
+example :
+    lookState.rlog = [.read true [3, 1, 2], .read true [], .read true [2, 9], .hasNext true false,
+                      .read false [3, 1, 2], .read true [2, 9]] ∧
+    lookState.lookahead = 2 ∧ lookState.returned = [[3, 1, 2]] ∧
+    lookState.published = [[3, 1, 2], [2, 9]] ∧
+    curAt true (lookState.rlog.take 2) = 1 ∧ curAt true (lookState.rlog.take 5) = 1 := by
+  decide +kernel
+
+open Tid in
+/-- a reachable state in which the reader is about to start a `read_lookahead` while the
+    writer is in the middle of a copy (hypotheses of `conc_read_exact`, `l = true`) -/
+example :
+    let s := (Conc.run toyFrame [writer, writer, writer, writer, writer, reader, reader, reader, reader, reader,
+                                 writer, writer]
+      (Conc.init toyFrame 4 2 1 [.write [3, 1, 2], .rawWrite [2, 9]] [.read true, .read true])).1
+    s.rpc = .idle ∧ s.rops = [.read true] ∧ s.wpc = .copying [2, 9] [2, 9] 1 ∧ s.cursor true = 1 ∧
+    s.published = [[3, 1, 2]] := by
+  decide +kernel
 
 /-! ### the same with the real framing function on OSC messages -/
 
